@@ -40,7 +40,11 @@ func (n *MixedValueNode) AddConstraint(c constraint.Constraint) {
 	switch t := c.(type) {
 	case *constraint.TypeConstraint:
 		n.addTypeConstraint(t)
-		n.types = []string{t.Bytes().String()}
+		if len(n.types) == 0 || t.Bytes().Unquote().String() != "mixed" {
+			// `type: "mixed"` next to a type choice only says what the choice is
+			// already: the names of the choice stay.
+			n.types = []string{t.Bytes().String()}
+		}
 
 	case *constraint.Or:
 		n.addOrConstraint(t)
